@@ -32,6 +32,8 @@ var hostile = []string{
 	`{"type":"x","data":{}}`, `{"type":"","data":{}}`, `{"type":null}`, `{"data":{}}`, `{"type":{"a":1}}`, "poll://", "poll:///", "poll://g/", "poll://g/i/j", "http://", "https://127.0.0.1:1/x", "http://127.0.0.1:1", "ftp://x", "://", "http://%zz", "http://[::1",
 }
 
+var firingCrons = []string{"* * * * * *", "*/1 * * * * *", "@every 1s", "CRON_TZ=UTC * * * * * *"}
+
 var crons = []string{"* * * * * *", "*/1 * * * * *", "@every 1s", "* * * * *", "0 0 31 2 *", "0 0 30 2 *", "@every 0s", "@every -1s", "@every 100000h", "60 * * * *", "* * * * * * *", "", "bad", "@yearly", "@reboot", "TZ=Nowhere * * * * *", "CRON_TZ=UTC * * * * * *", "TZ=UTC", "CRON_TZ=UTC", "TZ=", "CRON_TZ=x", "*/0 * * * *", "1-0 * * * *", "* * * * 8", "0 0 1 1 * 2099"}
 
 // ---------------------------------------------------------------------------
@@ -274,7 +276,9 @@ func (g *gen) registration(pfx string) scenario {
 	sc.steps = append(sc.steps, step{HTTPReq: post("/promises", map[string]any{"id": p, "timeout": ms(g.pick1([]int64{300, 60000}, "ptimeout"))}, nil)})
 	sc.steps = append(sc.steps, step{HTTPReq: post("/promises", map[string]any{"id": r, "timeout": ms(60000)}, nil)})
 	var recv any
-	switch rapid.IntRange(0, 3).Draw(g.t, "recvshape") {
+	switch rapid.IntRange(0, 4).Draw(g.t, "recvshape") {
+	case 4: // receivers the real http plugin has to deliver to: nothing listening, refused, unresolvable, odd urls and headers
+		recv = json.RawMessage(g.pick([]string{`{"type":"http","data":{"url":"http://127.0.0.1:1"}}`, `{"type":"http","data":{"url":"http://127.0.0.1:1/x","headers":{"a":"b"}}}`, `{"type":"http","data":{"url":"http://nowhere.invalid/"}}`, `{"type":"http","data":{"url":"https://127.0.0.1:1"}}`, `{"type":"http","data":{"url":"http://127.0.0.1:1","headers":{"a\nb":"c"}}}`, `{"type":"http","data":{"url":"http://[::1"}}`, `{"type":"http","data":{"url":"nope://x"}}`, `"http://127.0.0.1:1/y"`, `"https://nowhere.invalid"`}, "recvhttp"))
 	case 0:
 		recv = g.hostile("recv")
 	case 1:
@@ -489,6 +493,9 @@ func (g *gen) schedule(pfx string) scenario {
 	id := pfx + g.pick([]string{"sch", "a/b", "a<b&c", "{{.id}}", "é"}, "id")
 	tmpl := g.pick([]string{pfx + "{{.id}}.{{.timestamp}}", pfx + "fixed", "{{", "{{.x", "{{.id", "}}{{", `{{template "x"}}`, "{{.nope}}", "{{.id.x}}", "{{range .}}x{{end}}", "{{call .id}}", "{{printf \"%s\" .id}}", "{{index . \"id\"}}", pfx + "{{.timestamp}}", "", pfx + "{{/* c */}}x", "{{define \"t\"}}{{end}}", pfx + "{{len .}}", "{{html .id}}", "{{.id | js}}"}, "template")
 	cron := g.pick(crons, "cron")
+	if rapid.Bool().Draw(g.t, "firing") { // half of the schedules fire within the batch's wait: their stored template, tags and timeout get PROCESSED
+		cron = g.pick(firingCrons, "firingcron")
+	}
 	ptags := map[string]any{}
 	if rapid.Bool().Draw(g.t, "routed") {
 		ptags["resonate:invoke"] = g.pick([]string{"poll://g/w", "default", `{"type":"poll","data":{"group":"g"}}`, "null", `{"type":"poll","data":null}`}, "ptagroute")
@@ -503,6 +510,11 @@ func (g *gen) schedule(pfx string) scenario {
 		st.invalid, st.noTrace = true, true
 	}
 	sc.steps = append(sc.steps, st)
+	if rapid.IntRange(0, 2).Draw(g.t, "twin") == 0 {
+		// a second schedule due in the same cycles whose promise id never changes: from its second firing on the promise
+		// already exists (the cycle's other outcome), next to whatever the first schedule's template does
+		sc.steps = append(sc.steps, step{HTTPReq: post("/schedules", map[string]any{"id": id + g.pick([]string{"-twin", "!", "0"}, "twinid"), "cron": g.pick(firingCrons, "twincron"), "promiseId": pfx + "twin-fixed", "promiseTimeout": 60000}, nil), mutation: "twin schedule with a constant promise id"})
+	}
 	sc.steps = append(sc.steps, step{HTTPReq: HTTPReq{Method: "GET", Path: "/schedules/" + esc(id)}})
 	sc.steps = append(sc.steps, step{HTTPReq: HTTPReq{Method: "GET", Path: "/schedules?id=" + url.QueryEscape(pfx+"*")}})
 	if rapid.IntRange(0, 3).Draw(g.t, "delete") == 0 {
@@ -898,7 +910,7 @@ func TestC13(t *testing.T) {
 	rapid.Check(t, func(rt *rapid.T) {
 		batch++
 		g := &gen{t: rt}
-		n := rapid.IntRange(20, 45).Draw(rt, "scenarios")
+		n := rapid.IntRange(40, 90).Draw(rt, "scenarios") // requests are cheap, the batch's cost is its waits and its restart
 		var scs []scenario
 		for i := 0; i < n; i++ {
 			scs = append(scs, g.next())
